@@ -294,13 +294,14 @@ def scenarios(tier):
         for dims in TV[nd]:
             ds = 'x'.join(map(str, dims))
             nparts = {1: 1, 2: 3, 3: 6}[nd] if tier == 'quick' else {1: 2, 2: 6, 3: 12}[nd]
-            # VanLeer ((r+|r|)/(1+|r|), one more case split per ratio) stays undecided within the cube budget on the cylindrical
-            # grids: thorough runs it on the Cartesian classes only
-            lims = ('SUPERBEE',) if tier == 'quick' else (('SUPERBEE', 'CHARM', 'MinMod') + (('VanLeer',) if g.startswith('Grid') else ()))
+            # VanLeer ((r+|r|)/(1+|r|), one more case split per ratio) stays undecided within the cube budget on every grid class
+            # (measured: 49 of its obligations unknown at 40 s per cube), so it is not part of the tier: its unit invariance is
+            # covered only through the limiter-independent part (tvd_separable) - a stated gap
+            lims = ('SUPERBEE',) if tier == 'quick' else ('SUPERBEE', 'CHARM', 'MinMod')
             for lim in lims:
                 for k in range(nparts):
                     T.append({'name': 'tvd_units/%s/%s/%s/part%d' % (g, ds, lim, k), 'fn': 'pv.props.c17:tvd_units',
-                              'params': {'g': g, 'dims': dims, 'limiter': lim, 'part': [k, nparts], 'cube_timeout': 20 if tier == 'quick' else 40}, 'timeout': 20 if tier == 'quick' else 40, 'validate': 1, 'batch': 1})
+                              'params': {'g': g, 'dims': dims, 'limiter': lim, 'part': [k, nparts], 'cube_timeout': 20 if tier == 'quick' else 60}, 'timeout': 20 if tier == 'quick' else 60, 'validate': 1, 'batch': 1})
             T.append({'name': 'tvd_separable/%s/%s/UF' % (g, ds), 'fn': 'pv.props.c17:tvd_separable',
                       'params': {'g': g, 'dims': dims, 'limiter': 'UF'}, 'timeout': 60, 'validate': 1, 'batch': 1})
     T.sort(key=lambda t: -int(np.prod(t['params']['dims'])) - (100 if 'Spherical' in t['name'] else 0) - (50 if 'tvd' in t['name'] else 0))
